@@ -17,7 +17,7 @@ RULE = ("typeddata.hash(json) events on random well-typed documents (1..8 struct
 REQUIRED = (["digests-equal", "repeat-before", "repeat-between", "repeat-after", "recursive-primary", "shared-dependency(diamond)",
              "negative-int", "array-multidim", "array-fixed", "array-of-structs", "struct-name-atom-lookalike", "deps>=3",
              "primary-not-first-in-name-order", "dep-sorts-before-primary", "empty-struct",
-             "dep-name-is-prefix-of-another(sorts-differently-when-rendered)", "sibling-document(same-signatures-one-dependency-changed)", "struct-name-outside-identifier-grammar", "hook-encode-type-equal", "hook-member-kind"]
+             "dep-name-is-prefix-of-another(sorts-differently-when-rendered)", "sibling-document(same-signatures-one-dependency-changed)", "struct-name-outside-identifier-grammar", "primary-type-is-the-domain-type", "message-references-domain-type", "hook-encode-type-equal", "hook-member-kind"]
             + ["atom-" + a for a in ("bool", "address", "string", "bytes", "bytesN", "uint", "int")]
             + ["domain-fields-%d" % k for k in range(1, 6)])
 LOOKALIKES = {"bytes0", "uint9", "int264", "bytes33", "uint320", "uint256x", "int7", "bytes64"}
@@ -51,6 +51,8 @@ def _features(v, types, primary):
                 refs.setdefault(r, set()).add(n)
     if any(len(s) >= 2 for s in refs.values()):
         v.bucket("shared-dependency(diamond)")
+    if "EIP712Domain" in deps:
+        v.bucket("message-references-domain-type")
     for n in reach | {"EIP712Domain"}:
         if n in tdgen.WEIRD_STRUCT_NAMES:
             v.bucket("struct-name-outside-identifier-grammar")
@@ -214,6 +216,12 @@ def gen(shard, rng, tier):
             for dom in tdgen.domain_subsets():
                 text, _ = tdgen.rand_document(rng, domain_fields=dom)
                 yield from both(_hash_case(text, "domain-shape"))
+                # the domain struct as primary type: the message is a second value of the domain type
+                types = {"EIP712Domain": list(dom)}
+                dv = tdgen.rand_value_tree(rng, types, "EIP712Domain", 2, tdgen.Budget(20))
+                mv = tdgen.rand_value_tree(rng, types, "EIP712Domain", 2, tdgen.Budget(20))
+                text = tdgen.assemble(rng, types, "EIP712Domain", tdgen.render_tree(rng, dv), tdgen.render_tree(rng, mv))
+                yield from both(_hash_case(text, "primary-is-domain", ["primary-type-is-the-domain-type"]))
     elif name == "hook-graphs":
         for _ in range(shard["count"]):
             shape = rng.choice([None, "repeat", "repeat", "recursive", "chain"])
